@@ -29,6 +29,8 @@ pub struct Cluster {
     /// data ids of the sentinel writes issued so far (each nudge is a publish to a fresh key, so that every
     /// log entry of the tail is observable afterwards)
     pub nudges: Vec<String>,
+    /// sentinel keys whose publish was answered with an error (or not at all)
+    pub nudges_refused: std::collections::BTreeSet<String>,
     pub client: reqwest::blocking::Client,
 }
 
@@ -113,6 +115,7 @@ impl Cluster {
             env,
             node_env: BTreeMap::new(),
             nudges: vec![],
+            nudges_refused: Default::default(),
             client,
         })
     }
@@ -320,7 +323,10 @@ impl Cluster {
     /// one sentinel write through node `via` to a fresh key
     pub fn nudge(&mut self, via: usize) {
         let id = format!("zz-nudge-{}", self.nudges.len() + 1);
-        let _ = self.publish(via, "", "DEFAULT_GROUP", &id, &format!("nudge {}", self.nudges.len() + 1));
+        let r = self.publish(via, "", "DEFAULT_GROUP", &id, &format!("nudge {}", self.nudges.len() + 1));
+        if matches!(r, Ok(false)) {
+            self.nudges_refused.insert(format!("nudge {}", self.nudges.len() + 1));
+        }
         self.nudges.push(id);
     }
 
